@@ -114,18 +114,24 @@ Definition next_rev_a (h : list ahist) (a : addr) : Z :=
 Definition next_rev_t (h : list thist) (id : Z) : Z :=
   fold_left (fun r x => if th_tx x =? id then Z.max r (th_rev x + 1) else r) h 1.
 
-(* one row of the data batch: first_usage / dates are NULL (None) for a metadata-only upsert *)
+(* one row of the data batch: first_usage / dates are NULL (None) for a metadata-only upsert.
+   UPDATE ... WHERE a.address = d.address AND (d.first_usage < a.first_usage OR NOT a.metadata @> d.metadata): every matching row
+   is rewritten from its own values; the AFTER UPDATE trigger then records the new metadata dated new.updated_at *)
+Definition acc_needs_update (x : account) (md : meta) (first : option Z) : bool :=
+  (match first with Some f => f <? a_first x | None => false end) || negb (mcontains (a_meta x) md).
+Definition acc_updated (now : Z) (x : account) (md : meta) (first upd : option Z) : account :=
+  {| a_addr := a_addr x; a_meta := mmerge (a_meta x) md;
+     a_first := match first with Some f => Z.min f (a_first x) | None => a_first x end;
+     a_ins := a_ins x; a_upd := opt_default now upd |}.
+
 Definition upsert_account (hist_on : bool) (now : Z) (st : list account * list ahist)
            (a : addr) (md : meta) (first ins upd : option Z) : list account * list ahist :=
   let '(accs, hist) := st in
   match find_account accs a with
   | Some x =>
-    let lower := match first with Some f => f <? a_first x | None => false end in
-    if lower || negb (mcontains (a_meta x) md) then
-      let x' := {| a_addr := a; a_meta := mmerge (a_meta x) md;
-                   a_first := match first with Some f => Z.min f (a_first x) | None => a_first x end;
-                   a_ins := a_ins x; a_upd := opt_default now upd |} in
-      (map (fun y => if String.eqb (a_addr y) a then x' else y) accs,
+    if acc_needs_update x md first then
+      let x' := acc_updated now x md first upd in
+      (map (fun y => if String.eqb (a_addr y) a && acc_needs_update y md first then acc_updated now y md first upd else y) accs,
        if hist_on then hist ++ [{| ah_addr := a; ah_rev := next_rev_a hist a; ah_date := a_upd x'; ah_meta := a_meta x' |}] else hist)
     else (accs, hist)
   | None =>
@@ -288,8 +294,9 @@ Definition run_input (f : features) (now : Z) (s : state) (i : input) : outcome 
     | None => Done s (PDelMeta (TAcc a) k)
     | Some x =>
       (* UPDATE accounts SET metadata = metadata - key: updated_at untouched; the AFTER UPDATE history trigger fires *)
-      let x' := {| a_addr := a; a_meta := mdel (a_meta x) k; a_first := a_first x; a_ins := a_ins x; a_upd := a_upd x |} in
-      Done (with_accounts s (map (fun y => if String.eqb (a_addr y) a then x' else y) (s_accounts s),
+      let del := fun y => {| a_addr := a_addr y; a_meta := mdel (a_meta y) k; a_first := a_first y; a_ins := a_ins y; a_upd := a_upd y |} in
+      let x' := del x in
+      Done (with_accounts s (map (fun y => if String.eqb (a_addr y) a then del y else y) (s_accounts s),
                              if f_acc_hist f then s_ahist s ++ [{| ah_addr := a; ah_rev := next_rev_a (s_ahist s) a; ah_date := a_upd x'; ah_meta := a_meta x' |}]
                              else s_ahist s))
            (PDelMeta (TAcc a) k)
